@@ -111,17 +111,11 @@ func (c *Check) pseudoFramesBeforeFilters() {
 	}
 	var gen ssa.Instruction
 	var focus []ssa.Instruction
-	for _, b := range f.Blocks {
-		for _, ins := range b.Instrs {
-			if call, ok := ins.(*ssa.Call); ok && call.Call.StaticCallee() != nil {
-				switch call.Call.StaticCallee().Name() {
-				case "generateTagRootsLeaves":
-					gen = call
-				case "applyFocus":
-					focus = append(focus, call)
-				}
-			}
-		}
+	for _, es := range effectiveSites(f, func(ins ssa.Instruction) bool { return calleeNamed(ins, "generateTagRootsLeaves") }, 2) {
+		gen = es.at
+	}
+	for _, es := range effectiveSites(f, func(ins ssa.Instruction) bool { return calleeNamed(ins, "applyFocus") }, 2) {
+		focus = append(focus, es.at)
 	}
 	key := "order:generateTagRootsLeaves<applyFocus"
 	switch {
@@ -551,8 +545,17 @@ func allAnon(f *ssa.Function) []*ssa.Function {
 }
 
 type subseqChecker struct {
-	prog *Program
-	how  []string
+	prog  *Program
+	how   []string
+	param *ssa.Parameter // when set, the source sequence is this parameter instead of a field
+}
+
+// isSource: v is the sequence the result must be a sub-sequence of.
+func (s *subseqChecker) isSource(v ssa.Value, obj ssa.Value, field int) bool {
+	if s.param != nil {
+		return v == ssa.Value(s.param)
+	}
+	return isLoadOfField(v, obj, field)
 }
 
 func (s *subseqChecker) note(h string) {
@@ -621,13 +624,13 @@ func (s *subseqChecker) check(v ssa.Value, obj ssa.Value, field int, depth int, 
 		}
 		return "make with non-zero length"
 	case *ssa.Slice:
-		if isLoadOfField(x.X, obj, field) {
+		if s.isSource(x.X, obj, field) {
 			s.note("re-slice of the field")
 			return ""
 		}
 		return s.check(x.X, obj, field, depth+1, seen)
 	case *ssa.UnOp:
-		if isLoadOfField(x, obj, field) {
+		if s.isSource(x, obj, field) {
 			s.note("the field itself")
 			return ""
 		}
@@ -669,7 +672,37 @@ func (s *subseqChecker) check(v ssa.Value, obj ssa.Value, field int, depth int, 
 			s.note("result of " + fnName(callee) + " (checked)")
 			return ""
 		}
+		// a helper that filters one of its slice parameters: every returned value must be a
+		// sub-sequence of that parameter, and the argument for it must be the field itself
+		if callee := x.Call.StaticCallee(); callee != nil && fnInModule(callee) && len(callee.Blocks) > 0 {
+			for pi, a := range x.Call.Args {
+				if pi >= len(callee.Params) || !isLoadOfField(a, obj, field) {
+					continue
+				}
+				okAll, nret := true, 0
+				why := ""
+				for _, b := range callee.Blocks {
+					if ret, ok := b.Instrs[len(b.Instrs)-1].(*ssa.Return); ok && len(ret.Results) >= 1 {
+						nret++
+						sub := &subseqChecker{prog: s.prog, param: callee.Params[pi]}
+						if w := sub.check(ret.Results[0], nil, -1, depth+1, map[ssa.Value]bool{}); w != "" {
+							okAll, why = false, w
+						}
+					}
+				}
+				if okAll && nret > 0 {
+					s.note("result of " + fnName(callee) + ", which returns a sub-sequence of the field it is given")
+					return ""
+				}
+				return "in " + fnName(callee) + ": " + why
+			}
+		}
 		return "result of call " + x.Call.Value.Name()
+	case *ssa.Parameter:
+		if s.param != nil && x == s.param {
+			s.note("the parameter itself")
+			return ""
+		}
 	}
 	return "unclassified value " + describeValue(v)
 }
@@ -730,7 +763,7 @@ func (s *subseqChecker) rangeElem(v ssa.Value, obj ssa.Value, field int) bool {
 	if !ok {
 		return false
 	}
-	if !isLoadOfField(ia.X, obj, field) {
+	if !s.isSource(ia.X, obj, field) {
 		return false
 	}
 	return rangeIndex(ia.Index)
@@ -864,16 +897,20 @@ func (c *Check) focusOnce() {
 	}
 	var focusCalls []*ssa.Call
 	var newCall *ssa.Call
+	// applyFocus may be called directly or through a local closure / helper
+	for _, es := range effectiveSites(f, func(ins ssa.Instruction) bool {
+		call, ok := ins.(*ssa.Call)
+		return ok && call.Call.StaticCallee() != nil && call.Call.StaticCallee().Name() == "applyFocus" && fnInModule(call.Call.StaticCallee())
+	}, 2) {
+		if call, ok := es.at.(*ssa.Call); ok {
+			focusCalls = append(focusCalls, call)
+		}
+	}
 	for _, b := range f.Blocks {
 		for _, ins := range b.Instrs {
 			if call, ok := ins.(*ssa.Call); ok {
-				if sc := call.Call.StaticCallee(); sc != nil {
-					if sc.Name() == "applyFocus" && fnInModule(sc) {
-						focusCalls = append(focusCalls, call)
-					}
-					if sc.Name() == "New" && fnPkgPath(sc) == modPath+"/internal/report" {
-						newCall = call
-					}
+				if sc := call.Call.StaticCallee(); sc != nil && sc.Name() == "New" && fnPkgPath(sc) == modPath+"/internal/report" {
+					newCall = call
 				}
 			}
 		}
